@@ -12,6 +12,7 @@ from gen import cut
 ID = 'C01'
 MODULES = ['Httoop.Props.C01', 'Httoop.Props.C01Headers', 'Httoop.Props.C01Pipeline', 'Httoop.Props.C01Mixed', 'Httoop.Props.C01Trailers']
 THEOREMS = [
+	'Httoop.Parser.no_size_limits',
 	'Httoop.splitOnce_append',
 	'Httoop.contains_append',
 	'Httoop.Parser.body_length_fragmentation',
